@@ -104,7 +104,15 @@ def run(ck):
         qrows = np.concatenate([X[:3], xr.make_X('random', 3, d, rng), 1e3 * xr.make_X('random', 1, d, rng)]).astype(np.float32)
         if task in ('reg', 'reg2'):
             with xr.quiet():
-                got = np.asarray(model.predict(torch.tensor(qrows)), dtype=np.float64)
+                if i % 2 == 1:
+                    # history: the model first predicts OTHER rows held in a staging buffer, the buffer is refilled in place and wrapped again
+                    # (same address / shape / dtype): the value of a row depends on the row, not on what the object saw before
+                    buf = np.ascontiguousarray(xr.make_X('random', len(qrows), d, rng).astype(np.float32))
+                    model.predict(torch.from_numpy(buf)); buf[:] = qrows
+                    got = np.asarray(model.predict(torch.from_numpy(buf)), dtype=np.float64)
+                    ck.count('formula rows predicted from a refilled buffer')
+                else:
+                    got = np.asarray(model.predict(torch.tensor(qrows)), dtype=np.float64)
             for r, row in enumerate(qrows):
                 acc = None
                 near_any = False
